@@ -4,7 +4,8 @@ Input (JSON):
   {"template": tree, "target": tree, "free": [names] | null, "bound": [names] | null,
    "pre_match": {name: tree} | null, "as_strings": bool (pass str() of the trees, and of the pre-matches)}
 tree ::= ["var", name] | ["int", n] | ["float", "repr"] | ["sum", t...] | ["prod", t...] | ["quot", t, t]
-       | ["pow", t, t] | ["call", t, [t...], {kw: t}] | ["sub", t, [t...]]
+       | ["pow", t, t] | ["call", t, [t...], {kw: t}] | ["sub", t, [t...]] | ["and", t...] | ["or", t...] | ["not", t]
+"lenient_errors": true  -> any exception counts as "no match reported" (logical nodes: pymbolic's own handler raises TypeError)
 
 Clauses (the property statement; *not* finding a match that exists is not a violation):
   binds-only-free     the returned substitution has a key that is not a declared free variable
@@ -55,6 +56,12 @@ def build(t):
         return p.Call(f, args)
     if k == "sub":
         return p.Subscript(build(t[1]), tuple(build(c) for c in t[2]))
+    if k == "and":
+        return p.LogicalAnd(tuple(build(c) for c in t[1:]))
+    if k == "or":
+        return p.LogicalOr(tuple(build(c) for c in t[1:]))
+    if k == "not":
+        return p.LogicalNot(build(t[1]))
     raise ValueError("unknown node %r" % (k,))
 
 
@@ -154,6 +161,12 @@ def ev(e, env, subst=None):
         if a == 0 and b < 0:
             raise Skip
         return a ** int(b)
+    if isinstance(e, p.LogicalAnd):
+        return Fraction(int(all(ev(c, env, subst) != 0 for c in e.children)))
+    if isinstance(e, p.LogicalOr):
+        return Fraction(int(any(ev(c, env, subst) != 0 for c in e.children)))
+    if isinstance(e, p.LogicalNot):
+        return Fraction(int(ev(e.child, env, subst) == 0))
     if isinstance(e, (p.Call, p.CallWithKwargs, p.Subscript)):
         if isinstance(e, p.Subscript):
             head = e.aggregate
@@ -286,6 +299,8 @@ def check(inp):
         except RecursionError:
             return None
         except Exception as ex:
+            if inp.get("lenient_errors"):
+                return {"outcome": "raise", "viols": []}
             return {"outcome": "raise", "viols": [
                 _viol("error-kind", "match raised %s: %s" % (type(ex).__name__, ex))]}
     viols = []
@@ -301,6 +316,11 @@ def check(inp):
     for v in (pm_trees or {}).values():
         all_names |= names_in(v)
     pts = points(all_names)
+    if any(tag in json.dumps([inp["template"], inp["target"]]) for tag in ('"and"', '"or"', '"not"')):
+        # truth values matter: every 0 / 1 valuation of up to five names (plus the rational points)
+        nm = sorted(all_names)[:5]
+        pts = [(100 + i, dict({n_: Fraction(1) for n_ in all_names}, **{n_: Fraction(b) for n_, b in zip(nm, bits)}))
+               for i, bits in enumerate(itertools.product((0, 1), repeat=len(nm)))] + pts
     for n, v in (pre or {}).items():
         if n not in result:
             viols.append(_viol("agrees-with-prematch", "pre-matched %s is missing from %r" % (n, result)))
@@ -534,6 +554,24 @@ def bounded(payload):
                 continue
             if sum(1 for f in failures if f["oracle"] == clause) < 5:
                 failures.append({"oracle": clause, "input": finp, "detail": replay(finp).get("detail")})
+
+    # ---- logical nodes: an `and` / `or` template against and / or / sum / product targets of the same and of other arity ----
+    n_l = 0
+    lt = [["and", ["var", "x"], ["var", "y"]], ["or", ["var", "x"], ["var", "y"]], ["and", ["var", "x"], ["var", "y"], ["var", "z"]],
+          ["not", ["var", "x"]], ["call", ["var", "g"], [["and", ["var", "x"], ["var", "y"]]]],
+          ["or", ["and", ["var", "x"], ["var", "y"]], ["var", "z"]]]
+    le = []
+    for op in ("and", "or", "sum", "prod"):
+        le += [[op, ["var", "p"], ["var", "q"]], [op, ["var", "p"], ["var", "q"], ["var", "r"]], [op, ["var", "q"], ["var", "p"]]]
+    le += [["not", ["var", "p"]], ["var", "p"], ["call", ["var", "g"], [["or", ["var", "p"], ["var", "q"]]]],
+           ["call", ["var", "g"], [["and", ["var", "p"], ["var", "q"]]]], ["or", ["and", ["var", "p"], ["var", "q"]], ["var", "r"]],
+           ["and", ["or", ["var", "p"], ["var", "q"]], ["var", "r"]]]
+    for T in lt:
+        for E in le:
+            for free in (["x", "y", "z"], ["x", "y"], None):
+                run({"template": T, "target": E, "free": free, "bound": None, "pre_match": None, "lenient_errors": True})
+                n_l += 1
+    parts["logical_node_pairs"] = n_l
 
     # ---- exhaustive: small templates x small targets x choices of free variables ----
     templates = small_trees([["var", "a"], ["var", "b"], ["int", 1]])
